@@ -35,9 +35,9 @@ RULE = ("Adverse-path fault enumeration: instrument {spot long leveraged w in (1
 ASSUMPTIONS = ["zero interest rate (interest is C06) so that the ledger knows the decision-time NLV without calling a mutating valuation",
                "known finding step-raises-from-reward (K1) is classified by mechanism: EndOfEpisodeError through rewards.*.calculate "
                "ending in Broker.net_liquidation_value while the account is insolvent"]
-REQUIRED = ["C09:insolvent-decision-trades-nothing", "C09:valuation-raises-iff-nonpositive", "C09:refused-after-end",
+REQUIRED = ["C09:nonraising-valuation-is-current", "C09:insolvent-decision-trades-nothing", "C09:valuation-raises-iff-nonpositive", "C09:refused-after-end",
             "C09:reset-reenables", "C09:control-stays-solvent", "C09:exact-zero-is-insolvent"]
-REQUIRED_CATS = ["ruin:latent", "ruin:nonlatent", "severity:exact-zero", "severity:below", "severity:far-below", "severity:control",
+REQUIRED_CATS = ["broker-level:insolvent", "ruin:latent", "ruin:nonlatent", "severity:exact-zero", "severity:below", "severity:far-below", "severity:control",
                  "first-step", "later-step", "spot-long", "spot-short", "margined"]
 REQUIRED_HITS = ["Broker.transact", "Broker.rebalance", "Broker.net_liquidation_value"]
 TECHNIQUE = "runtime monitoring with fault injection: ruining price paths at every position of a step; ledger replay decides decision-time NLV; transact hook proves no trade"
@@ -65,7 +65,68 @@ def classify_escape(exc):
     return None
 
 
+def valuation_bl(ctx):
+    """Broker-level: after EVERY quote of an adverse path the non-raising valuation must equal
+    the ledger (so it is current, not the value at the last settlement) and the raising
+    one must signal end-of-episode iff that value is <= 0 - also through holdings_weights
+    and context."""
+    from tradingenv.broker.broker import Broker
+    from tradingenv.broker.trade import Trade
+    rng = ctx.rng
+    fees = BrokerFees(proportional=rng.choice([0, 1e-4]))
+    t = datetime(2020, 1, 1)
+    ex = gen.new_exchange(t, fees)
+    dep = rng.choice([100.0, 1e5])
+    b = Broker(ex, deposit=dep, fees=fees)
+    led = Ledger(dep, fees)
+    cs = rng.sample([ETF("A"), ES(2021, 3), gen.UserFuture("F", 5.0, 0.1), gen.SpotMult("L10", 10.0)], rng.randint(1, 2))
+    mid = {}
+    for c in cs:
+        mid[c] = rng.choice([16.0, 100.0, 3000.0])
+        ex.process_EventNBBO(EventNBBO(t, c, mid[c], mid[c]))
+        led.quote(c, mid[c], mid[c])
+        lev = rng.choice([-1, 1]) * rng.uniform(1.5, 4.0) / len(cs)
+        q = lev * dep / (mid[c] * c.multiplier)
+        b.transact(Trade(t, c, q, mid[c], mid[c], fees))
+        led.trade(c, q, mid[c])
+    crossed = False
+    for step in range(rng.randint(4, 12)):
+        c = rng.choice(cs)
+        # drift against the position
+        adverse = -1 if led.pos[c] > 0 else 1
+        mid[c] *= math.exp(adverse * abs(rng.gauss(0.08, 0.08)))
+        ex.process_EventNBBO(EventNBBO(t, c, mid[c], mid[c]))
+        led.quote(c, mid[c], mid[c])
+        order = rng.random() < 0.5
+        if order:
+            v = b.net_liquidation_value(False)
+        try:
+            b.net_liquidation_value()
+            raised = False
+        except EndOfEpisodeError:
+            raised = True
+        if not order:
+            v = b.net_liquidation_value(False)
+        want = led.nlv()
+        ctx.check("C09:nonraising-valuation-is-current", abs(v - want) <= 1e-9 * led.scale(), got=v, want=want, step=step,
+                  queried_first=order)
+        ctx.check("C09:valuation-raises-iff-nonpositive", raised == (v <= 0), value=v, raised=raised, at="broker-level")
+        for name, fn in (("weights", b.holdings_weights), ("context", b.context)):
+            try:
+                fn()
+                r2 = False
+            except EndOfEpisodeError:
+                r2 = True
+            ctx.check("C09:valuation-raises-iff-nonpositive", r2 == (v <= 0), value=v, raised=r2, at=name)
+        crossed = crossed or v <= 0
+    ctx.cat("broker-level", "broker-level:" + ("insolvent" if crossed else "solvent"))
+    ctx.nontrivial = crossed
+    ctx.sample = {"broker_level": True, "contracts": [gen.describe_contract(c) for c in cs], "deposit": dep}
+
+
 def case(ctx, i, tier):
+    if i % 6 == 5:
+        return valuation_bl(ctx)
     rng = ctx.rng
     kind = ["spot-long", "spot-short", "margined"][i % 3]
     severity = ["exact-zero", "below", "far-below", "control"][(i // 3) % 4]
